@@ -3,6 +3,7 @@
   `optimize` is the identity on canonical normal forms.
 -/
 import J2M.Proofs.Union
+import J2M.Proofs.SplitWorklist
 namespace J2M.C08P
 
 /-! ### the canonical normal form -/
@@ -205,8 +206,22 @@ def splitStep (reg : StrRegistry) (s : Split) (item : Ty) : Split :=
     | .dict x => { s with dicts := s.dicts ++ [x] }
     | x => { s with other := s.other ++ [x] }
 
-theorem splitMembers_eq (reg : StrRegistry) (ts : List Ty) :
-    splitMembers reg ts = ts.foldl (splitStep reg) {} := rfl
+theorem splitStep_eq_W (reg : StrRegistry) : splitStep reg = SplitW.splitStep reg := rfl
+
+/-- a member the worklist of `_optimize_union` splices: a union, or an optional union -/
+abbrev hidden := SplitW.hidden
+
+/-- without hidden unions among the members (`.union _` / `.opt (.union _)`), the worklist split is the
+    category fold -/
+theorem splitMembers_eq (reg : StrRegistry) (ts : List Ty) (h : ∀ t ∈ ts, hidden t = false) :
+    splitMembers reg ts = ts.foldl (splitStep reg) {} := by
+  rw [SplitW.splitMembers_eq_foldl h]; rfl
+
+theorem hidden_false_of {t : Ty} (hu : t.isUnion = false) (ho : t.isOpt = false) : hidden t = false := by
+  cases t <;> simp_all [hidden, SplitW.hidden, Ty.isUnion, Ty.isOpt]
+
+theorem hidden_false_opt {y : Ty} (hu : y.isUnion = false) : hidden (.opt y) = false := by
+  cases y <;> simp_all [hidden, SplitW.hidden, Ty.isUnion]
 
 def stageInt (other : List Ty) : List Ty :=
   if other.any Ty.isInt && other.any Ty.isFloat then removeFirst Ty.isInt other else other
